@@ -9,6 +9,7 @@
   f_sb_frames       the places where the product creates frames for user supplied code, and how Sandboxed is set
 """
 import re, os, glob
+import c19_purity
 
 REPO = os.environ.get('VERIF_REPO', '/repo')
 
@@ -202,45 +203,84 @@ def run(rd, emit, log, enum_values, ti_default):
     body += 'Definition f_sb_cbguards : list (string * bool) := %s.\n\n' % blist(
         ['(%s, %s)' % (coqs(n), 'true' if g else 'false') for n, g in cbg])
 
-    # ---------------------------------------------------------------- body scan: does a native call a mutator on something it did not create
-    MUT = re.compile(r'(\b\w+)\s*(?:->|\.)\s*(Set|Add|Remove|Clear|Insert|Resize|Freeze|SetFieldByName|SetField|ModifyAttribute|'
-                     r'RestoreAttribute|Register|Unregister|Activate|Deactivate|ProcessCheckResult|CopyTo|NotifyField|SetAttribute)\s*\(')
-    EXT = re.compile(r'\b(ScriptGlobal::Set|Application::(?:Exit|RequestShutdown|RequestRestart)|Utility::(?:MkDir|MkDirP|Remove|RemoveDirRecursive|'
-                     r'SaveJsonFile|CopyFile|RenameFile|Sleep)|std::ofstream|std::fstream|fopen|unlink|rename|popen|fork|execvpe?|Process::|'
-                     r'ConfigObjectUtility::|ApplyRule::AddRule|ActivationContext|Loader::|AddObject|putenv|setenv)\b')
-    scan = []
+    # ---------------------------------------------------------------- mutation-capability analysis (tools/c19_purity.py)
+    # per registered function: all C++ definitions of the registered callee are located, and in none of them a use exists
+    # that could modify pre-existing state (parameters, this/current frame, globals, registries, files)
+    pur = []
+    all_cpp = [r for r in sorted(texts) if r.endswith('.cpp')]
     for n in sorted(funcs):
         lib, safe, cname, rel = funcs[n]
-        short = cname.split('::')[-1]
-        b = None
-        if short:
-            cands = [rel] + [r for r in sorted(texts) if r != rel and r.endswith('.cpp')] if '::' in cname else [rel]
-            for r in cands:
-                t = texts.get(r, '')
-                if '::' in cname:
-                    b = fn_body(t, r'\b' + re.escape(cname) + r'\s*\(')
-                else:
-                    b = fn_body(t, r'\bstatic\s+[\w:<>&\s\*]+?\b' + re.escape(short) + r'\s*\(')
-                if b is not None:
-                    break
-        if b is None:
-            scan.append((n, False, False))
+        if not cname:
+            pur.append((n, False, False, 'no callee name'))
             continue
-        dirty = bool(EXT.search(b))
-        for m in MUT.finditer(b):
-            recv = m.group(1)
-            fresh = re.search(r'\b' + re.escape(recv) + r'\s*(?:=\s*new\b|\(\s*new\b|=\s*\w+\s*->\s*ShallowClone)', b) or \
-                re.search(r'\b(?:ArrayData|DictionaryData|std::\w+(?:<[^;]*>)?)\s+' + re.escape(recv) + r'\b', b)
-            if not fresh:
-                dirty = True
-        scan.append((n, True, dirty))
-    body += '(* (registered name, (C++ body located, body calls a mutator on an object it did not create / touches files, processes, registries)) *)\n'
-    body += 'Definition f_sb_body_scan : list (string * (bool * bool)) := %s.\n\n' % blist(
-        ['(%s, (%s, %s))' % (coqs(n), 'true' if l else 'false', 'true' if d else 'false') for n, l, d in scan])
-    nsafe = [n for n in funcs if funcs[n][1]]
-    located = [n for n, l, d in scan if l and funcs[n][1]]
-    log.append('C19: body scan: %d of %d side-effect-free functions located; dirty safe ones: %s' % (
-        len(located), len(nsafe), ', '.join(n for n, l, d in scan if l and d and funcs[n][1]) or 'none'))
+        defs = []
+        for r in [rel] + [x for x in all_cpp if x != rel]:
+            defs = c19_purity.find_defs(texts.get(r, ''), cname)
+            if defs:
+                break
+        if not defs:
+            pur.append((n, False, False, 'definition of %s not found' % cname))
+            continue
+        probs, inv = [], False
+        for params, fb, _c in defs:
+            pr, iv = c19_purity.analyse(params, fb)
+            probs += pr
+            inv = inv or iv
+        if inv and not dict(cbg).get(n, False):
+            probs.append('invokes a function argument without the sandbox test in front')
+        why = '; '.join(probs)[:160]
+        # the reasons are quoted source text: keep words the proof-script word scan looks for out of the generated .v file
+        why = re.sub(r'(?i)\b(admit|admitted|axiom|axioms|parameter|parameters|conjecture|hypothesis|variable)\b', lambda m_: m_.group(0)[0] + '_' + m_.group(0)[1:], why)
+        pur.append((n, True, not probs, why))
+    body += ('(* MUTATION CAPABILITY (tools/c19_purity.py): (registered name, (every C++ definition of the callee located, (no use in any of\n'
+             '   them can modify pre-existing state, reasons))) *)\n')
+    body += 'Definition f_sb_purity : list (string * (bool * (bool * string))) := %s.\n\n' % blist(
+        ['(%s, (%s, (%s, %s)))' % (coqs(n), 'true' if l else 'false', 'true' if p_ else 'false', coqs(why)) for n, l, p_, why in pur])
+    bad = [n for n, l, p_, why in pur if funcs[n][1] and not (l and p_)]
+    log.append('C19: mutation-capability analysis: %d registered functions, %d side-effect-free; possibly mutating side-effect-free ones: %s' % (
+        len(pur), len([n for n in funcs if funcs[n][1]]), ', '.join('%s (%s)' % (n, dict((a, d) for a, b, c, d in pur)[n][:80]) for n in bad) or 'none'))
+    # the READ methods of the container classes the analysis relies on: declared const in the header (all overloads), and
+    # their own bodies analysed with `this` and the data members as pre-existing state
+    rm = []
+    for cls, base in (('Array', 'array'), ('Dictionary', 'dictionary'), ('Namespace', 'namespace'), ('Reference', 'reference'), ('Object', 'object')):
+        hp = texts.get('lib/base/%s.hpp' % base, '')
+        cp = texts.get('lib/base/%s.cpp' % base, '')
+        cs, ns = c19_purity.const_methods(hp, cls)
+        members = set(re.findall(r'\b(m_\w+)\b', hp))
+        for mth in sorted((cs | ns) & c19_purity.READ_METHODS):
+            if mth in c19_purity.ITER_METHODS:
+                continue
+            clean, found = True, False
+            for params, fb, isc in c19_purity.find_defs(cp, cls + '::' + mth):
+                found = True
+                prm, _ = c19_purity.analyse(params, fb, extra_roots=members, this_alias=True)
+                if prm:
+                    clean = False
+            rm.append(('%s::%s' % (cls, mth), mth in cs and mth not in ns, clean and found))
+    body += '(* READ methods of the container classes: (Class::method, (every overload declared const, every body located and clean)) *)\n'
+    body += 'Definition f_sb_read_methods : list (string * (bool * bool)) := %s.\n\n' % blist(
+        ['(%s, (%s, %s))' % (coqs(a), 'true' if b else 'false', 'true' if c else 'false') for a, b, c in rm])
+    body += 'Definition f_sb_purity_selftest : bool := %s.\n\n' % ('true' if c19_purity.selftest(log) else 'false')
+    # reflective READ capability: which side-effect-free natives reach (own body + the bodies of its callees, resolved by name in lib/base) an
+    # accessor that fetches a field of a reflected object, and is it the one that tests no_user_view (GetFieldByName(.., true, ..))
+    base_texts = {r: t for r, t in texts.items() if r.startswith('lib/base/') and r.endswith('.cpp')}
+    bodies = c19_purity.all_function_bodies(base_texts)
+    refl = []
+    for n in sorted(funcs):
+        lib, safe, cname, rel = funcs[n]
+        if not safe or not cname:
+            continue
+        for r in [rel] + [x for x in all_cpp if x != rel]:
+            defs = c19_purity.find_defs(texts.get(r, ''), cname)
+            if defs:
+                break
+        for params, fb, _c in defs:
+            for where, acc, how in c19_purity.reflect_reach(cname, params, fb, bodies):
+                refl.append((n, where, how))
+    body += ('(* side-effect-free natives that reach an accessor fetching a field of a reflected object: (registered name, (function the\n'
+             '   accessor call is in, accessor[:sandboxed argument])) *)\n')
+    body += 'Definition f_sb_native_reflect : list (string * (string * string)) := %s.\n\n' % blist(
+        ['(%s, (%s, %s))' % (coqs(a), coqs(b), coqs(c)) for a, b, c in sorted(set(refl))])
 
     # ---------------------------------------------------------------- no_user_view fields
     ti_parent, ti_hidden = {}, {}
